@@ -51,7 +51,10 @@ def run_ch_partition(c: CH, part: str, tier: str) -> dict:
             r = json.loads(line[len("CHRESULT "):])
             break
     else:
-        r = {"verdict": "error", "error": f"worker rc={rc}: {err[-1500:]}"}
+        if rc == 124:  # the worker overran even the outer time limit: nothing was decided (inconclusive, not an error)
+            r = {"verdict": "not_confirmed", "paths": 0, "wall_s": round(c.timeout * 2.5 + 120, 1), "note": "worker killed at the outer time limit"}
+        else:
+            r = {"verdict": "error", "error": f"worker rc={rc}: {err[-1500:]}"}
     r.update(check=c.id, partition=part, engine="C", allow_empty=c.allow_empty)
     return r
 
@@ -68,7 +71,11 @@ def run_k(k: K, tier: str) -> dict:
             r = json.loads(line[len("KRESULT "):])
             break
     else:
-        r = {"queries": [], "error": f"worker rc={rc}: {(err or out)[-1500:]}"}
+        if rc == 124:  # out of time: inconclusive, not an error
+            r = {"queries": [{"id": "(whole job)", "verdict": "inconclusive", "detail": f"worker exceeded {k.timeout:.0f}s", "seconds": k.timeout,
+                              "bound": "-"}]}
+        else:
+            r = {"queries": [], "error": f"worker rc={rc}: {(err or out)[-1500:]}"}
     r.update(check=k.id, engine="K")
     return r
 
